@@ -109,6 +109,11 @@ func VerifQuo() {
 	verifFreezeContext(c, "context")
 
 	res, err := c.Quo(&d, &x, &y)
+	if c.Precision == 0 {
+		// documented: Quo needs a positive precision and reports an error otherwise
+		verifAssert(err != nil, "C04.quo.zero_precision_is_error")
+		return
+	}
 
 	verifArithEpilogue("quo", c, x.Negative != y.Negative, &x.Coeff, &y.Coeff, int64(x.Exponent)-int64(y.Exponent), &d, res, err)
 }
